@@ -23,6 +23,7 @@ type verifClock struct {
 	mock      *clock.Mock
 	timerD    []time.Duration
 	untilArg  []time.Time
+	untilNow  []time.Time
 	untilRes  []time.Duration
 	sinceRes  []time.Duration
 }
@@ -35,6 +36,7 @@ func (c *verifClock) Timer(d time.Duration) *clock.Timer {
 func (c *verifClock) Until(t time.Time) time.Duration {
 	r := c.mock.Until(t)
 	c.untilArg = append(c.untilArg, t)
+	c.untilNow = append(c.untilNow, c.mock.Now())
 	c.untilRes = append(c.untilRes, r)
 	return r
 }
@@ -97,7 +99,9 @@ func verifSubscriber(held int, peers int, minI, initI, maxI time.Duration) *veri
 	if err != nil {
 		panic(err)
 	}
-	s.poller.clock = clk
+	// request latencies feed the peer tracker's floating-point statistics, which are
+	// outside the claim: the poller measures them on a clock that stands still
+	s.poller.clock = clock.NewMock()
 	for i := 0; i < peers; i++ {
 		s.peerTracker.peerSeen(verifPeer(i))
 	}
@@ -261,4 +265,62 @@ func verifSettle() {
 		return
 	}
 	time.Sleep(100 * time.Millisecond)
+}
+
+// VerifC20_RunLoopTwoRounds: two consecutive iterations of the real run loop.
+// In the first the request takes an arbitrary time while the local instance
+// finishes (the one case in which the wait is extended by the request time);
+// the second poll takes no time and brings nothing.  The second wait is the
+// predicted (back-off) interval and nothing more: an extension granted in one
+// round is not carried over into the next.
+func VerifC20_RunLoopTwoRounds() {
+	held := sym.Choice("held", 2)
+	// two peers: the certificate arrives locally during the request to the first, the
+	// catch-up before the request to the second one notices it
+	v := verifSubscriber(held, 2, time.Second, 10*time.Second, 100*time.Second)
+	rt := sym.Int64("request-time")
+	sym.Assume(sym.And(0 <= rt, rt <= int64(2*time.Second)))
+	first := true
+	v.h.OnStream = func() {
+		if first { // during the first request the local instance finishes; the request takes rt
+			first = false
+			if err := v.cs.Put(context.Background(), v.all[held]); err != nil {
+				panic(err)
+			}
+			v.clk.mock.Add(time.Duration(rt))
+		}
+	}
+	lagging := certexchange.VerifResponse(0, nil, 0)
+	v.h.Responses = [][]byte{lagging, lagging, lagging, lagging, lagging, lagging}
+	ctx := &verifCtx{Context: context.Background(), rounds: 3, iterDone: make(chan int, 4)}
+	go func() { _ = v.s.run(ctx) }()
+	<-ctx.iterDone
+	ref := newPredictor(time.Second, 10*time.Second, 100*time.Second)
+	i1 := ref.update(1)
+	sym.Assert(len(v.clk.untilArg) == 1 && v.clk.untilArg[0].Equal(time.Unix(0, 0).Add(i1)), "round 1: progress 1 was fed to the predictor")
+	// let the timer fire once (it is due 10 s after the first poll ended; the next one not before 18 s)
+	v.clk.mock.Add(15 * time.Second)
+	<-ctx.iterDone
+	sym.Cover("second-round")
+	i2 := ref.update(0)
+	sym.Assert(len(v.clk.untilArg) == 2, "round 2 computed its delay")
+	if len(v.clk.untilArg) != 2 {
+		return
+	}
+	// round 1 waited i1 beyond the end of its request (the request time is the one
+	// extension it was entitled to), so round 2 polls at rt + i1 and aims at i2 later
+	sym.Assert(v.clk.untilArg[1].Equal(time.Unix(0, 0).Add(time.Duration(rt)+i1+i2)), "round 2: next poll time is poll time plus the predicted interval")
+	need := v.clk.untilArg[1].Sub(v.clk.mock.Now()) // what is left of the predicted wait
+	x := sym.Int64("probe")
+	sym.Assume(sym.And(0 <= x, x < int64(40*time.Second)))
+	polls := v.h.Opened()
+	v.clk.mock.Add(time.Duration(x))
+	verifSettle()
+	fired := v.h.Opened() > polls
+	if fired {
+		sym.Cover("fired")
+	} else {
+		sym.Cover("not-fired")
+	}
+	sym.Assert(fired == (time.Duration(x) >= need), "round 2: the wait is the predicted interval, not extended by the first round's request time")
 }
